@@ -3,12 +3,12 @@
 package props
 
 import (
-	"strconv"
 	"cmp"
 	"fmt"
 	"math"
 	"math/rand/v2"
 	"sort"
+	"strconv"
 	"strings"
 
 	"github.com/creachadair/mds/omap"
